@@ -342,6 +342,9 @@ class ExcelInPython:
                 return '#ERROR!'
 
     def _vlookup(self, lookup_value: str | int | float, table_array: List, col_index_num: int, range_lookup: bool | int = False):
+        # a column number or a mode that was computed (4/2, 0/1) arrives as a float: Excel cuts the fraction off
+        col_index_num, range_lookup = (int(number) if isinstance(number, float) else number
+                                       for number in (col_index_num, range_lookup))
         if not isinstance(range_lookup, (bool, int)):
             return '#ERROR!'
 
@@ -395,6 +398,8 @@ class ExcelInPython:
         return self._decimal_round(number, num_digits, decimal.ROUND_DOWN)
 
     def _date(self, year: int, month: int, day: int):
+        # a part that was computed (4048/2) arrives as a float: Excel cuts the fraction off
+        year, month, day = (int(number) if isinstance(number, float) else number for number in (year, month, day))
         if isinstance(year, str):
             try:
                 year = int(year)
@@ -509,6 +514,10 @@ class ExcelInPython:
     @staticmethod
     def _address(row: int, col: int, *args) -> str:
         from string import ascii_uppercase
+
+        if isinstance(row, float):
+            # a row number that was computed (6/2) arrives as a float: the address is $B$3, not $B$3.0
+            row = int(row)
 
         def get_col():
             # bijective base 26: 1 -> A, 26 -> Z, 27 -> AA, 702 -> ZZ, 703 -> AAA
@@ -808,6 +817,9 @@ class ExcelInPython:
 
     def _search(self, find_text: str, within_text: str, start_num: int | None):
         start_num = start_num if start_num else 1
+        if isinstance(start_num, float):
+            # a position that was computed (10/2) arrives as a float: Excel cuts the fraction off
+            start_num = int(start_num)
         if start_num and (start_num > len(within_text) or start_num <= 0):
             return '#VALUE!'
 
